@@ -29,6 +29,8 @@ def values_for(rng, dtype, n):
     dt = np.dtype(dtype)
     if dt.kind == 'f':
         pool = [0.0, 1.0, -1.0, 0.5, 1234.5678, -9876.54321, 1e-7, 123456789012.25, -999.25, 3.14159265, 1e15, -2.5e-3, 99999.9995]
+        # values around the last printed decimal of every format in use (between half a unit and one unit, just under half a unit)
+        pool += [sg * m * 10.0 ** -k for k in (0, 1, 3, 6, 10) for m in (0.7, 0.95, 0.51, 0.4) for sg in (1, -1)]
         if dtype == 'float32':
             pool = [float(np.float32(v)) for v in pool if abs(v) < 1e30]
     elif dt.kind == 'i':
